@@ -46,14 +46,18 @@ def main():
     if run_cmd:
         rc1, o1 = sh(run_cmd, cwd=wt + "/daemon" if not run_cmd.startswith("cd ") else None)
         res["demo_fails_with_patch"] = rc1 != 0
-        sh("git stash -q -- %s" % " ".join(files), cwd=wt)
+        # (no git stash: the stash stack is shared by all worktrees of /repo)
+        sh("git checkout -- %s" % " ".join(files), cwd=wt)
         rc2, o2 = sh(run_cmd, cwd=wt + "/daemon" if not run_cmd.startswith("cd ") else None)
         res["demo_passes_without_patch"] = rc2 == 0
-        sh("git stash pop -q", cwd=wt)
+        rca, oa = sh("git apply %s/patch.diff" % d, cwd=wt)
+        assert rca == 0, "could not re-apply the patch: " + oa
         res["demo_out_with_patch"] = o1[-800:]
         if rc2 != 0:
             res["demo_out_without_patch"] = o2[-800:]
-    # 3. our checks against the patched tree
+    # 3. our checks against the patched tree (the demonstration file is not part of the seeded change)
+    if has_demo and os.path.exists(demo_abs):
+        shutil.move(demo_abs, tmp_demo)
     res["checks"] = {}
     for c in checks:
         t = time.time()
@@ -67,6 +71,8 @@ def main():
                 if os.path.exists(rp):
                     shutil.copy(rp, d + "/replay_" + c + "_" + os.path.basename(rp))
                 break
+    if has_demo and os.path.exists(tmp_demo):
+        shutil.move(tmp_demo, demo_abs)
     meta_out = {"property": pid, "agent_meta": meta, "confirmed": {k: res.get(k) for k in
                 ("builds", "suite_passes_with_patch", "demo_fails_with_patch", "demo_passes_without_patch")},
                 "needs_to_manifest": meta.get("needs_to_manifest"), "summary": meta.get("summary"),
